@@ -135,6 +135,57 @@ func famNil(e entry[any], c rec) {
 	}
 }
 
+// family 2b: the same at a pointer type: a nil pointer is a value like any other - every function is applied to it,
+// and what a function makes of nil is that function's business
+func famNilPtr(e entry[*int], c rec) {
+	for _, pattern := range []int{0, 1, 2} { // which functions return a nil pointer: none / the even ones / the odd ones
+		for _, start := range []*int{nil, ptr(4)} {
+			var trace []int
+			step := func(i int, p *int) *int {
+				v := 1 // what nil counts as
+				if p != nil {
+					v = *p
+				}
+				if (pattern == 1 && i%2 == 0) || (pattern == 2 && i%2 == 1) {
+					if v%2 == 1 {
+						return nil
+					}
+				}
+				return ptr((v*7 + i + 1) % prime)
+			}
+			fs := make([]func(*int) *int, e.N)
+			for i := range fs {
+				i := i
+				fs[i] = func(p *int) *int { trace = append(trace, i+1); return step(i, p) }
+			}
+			c.r.Evaluations++
+			drv.Tick()
+			got := e.Build(fs)(start)
+			want := start
+			for i := 0; i < e.N; i++ {
+				want = step(i, want)
+			}
+			if fmt.Sprint(trace) != fmt.Sprint(seqN(e.N)) {
+				c.fail("nilptr-order", fmt.Sprintf("with nil pointers travelling through a pipeline of func(*int) *int (pattern %d) the functions were applied in the order %v, want %v", pattern, trace, seqN(e.N)), show(start))
+				return
+			}
+			if show(got) != show(want) {
+				c.fail("nilptr-value", fmt.Sprintf("pipeline of func(*int) *int (pattern %d): result %s, applying the functions one by one gives %s", pattern, show(got), show(want)), show(start))
+				return
+			}
+		}
+	}
+}
+
+func ptr(v int) *int { return &v }
+
+func show(p *int) string {
+	if p == nil {
+		return "nil"
+	}
+	return fmt.Sprintf("&%d", *p)
+}
+
 // family 3: re-entrancy - one of the functions invokes the composition itself
 func famReentrant(e entry[S], c rec) {
 	for k := 0; k < e.N; k++ {
@@ -373,6 +424,7 @@ func run(i int) drv.Result {
 	c := rec{&r, e.Name, e.N}
 	famValues(e, c)
 	famNil(ea, c)
+	famNilPtr(tablePtr[i], c)
 	famReentrant(e, c)
 	famHistory(e, c)
 	done := make(chan struct{})
@@ -391,7 +443,7 @@ func run(i int) drv.Result {
 func main() {
 	drv.Main(drv.Property{
 		ID: "C20", Level: "exploration", PanicIsViolation: true, MemLimitGB: 4,
-		Rule:        "one case = one exported PipeN function of internal/pipe (tables generated from the staged source, so a new arity is picked up); per function: (1) 5 arguments x 2 invocations with pairwise non-commuting affine maps and a call trace (order, exactly-once, no application at composition time); (2) the same function instantiated at type any with nil interface values entering and travelling through the pipeline (4 patterns x 4 arguments); (3) a re-entrant invocation issued from inside function k, for every k; (4) two overlapping invocations of one composition, gated at function granularity: all C(2N,N) interleavings for N<=5, all N+1 park points for larger N; (5) histories over two compositions: X built, then Y built (every exported arity), then X, Y, X invoked; and function k of X panics (for every k, recovered by the caller), after which X and every other composition are invoked again; every case is non-trivial (any transposition, omission, duplication or shared per-composition state changes trace, value or counters)",
+		Rule:        "one case = one exported PipeN function of internal/pipe (tables generated from the staged source, so a new arity is picked up); per function: (1) 5 arguments x 2 invocations with pairwise non-commuting affine maps and a call trace (order, exactly-once, no application at composition time); (2) the same function instantiated at type any with nil interface values entering and travelling through the pipeline (4 patterns x 4 arguments), and at type *int with nil pointers (3 patterns x 2 arguments); (3) a re-entrant invocation issued from inside function k, for every k; (4) two overlapping invocations of one composition, gated at function granularity: all C(2N,N) interleavings for N<=5, all N+1 park points for larger N; (5) histories over two compositions: X built, then Y built (every exported arity), then X, Y, X invoked; and function k of X panics (for every k, recovered by the caller), after which X and every other composition are invoked again; every case is non-trivial (any transposition, omission, duplication or shared per-composition state changes trace, value or counters)",
 		Assumptions: []string{"arities outside the generated table do not exist in the package", "argument values beyond those tried are covered by parametricity of the generic functions", "overlapping invocations are serialized by gates: data races inside PipeN itself are not modelled"},
 		Cases: func(string) (int, func(int) string) {
 			return len(table), func(i int) string { return table[i].Name }
